@@ -915,6 +915,7 @@ def _frame_monitor(findings, op, parent, name, raw_slot, T0, T1, texts0, pf0, pl
                                           f'the untouched token {stray[0].raw_text!r}'))
     # 4. layout of repeated slots of the parent
     _, _, P, _, _ = _mods()
+    _pos0 = {id(t): n for n, t in enumerate(T0)}
     for sname, skind, _ in slots_of(parent):
         if skind != 'rep':
             continue
@@ -930,7 +931,12 @@ def _frame_monitor(findings, op, parent, name, raw_slot, T0, T1, texts0, pf0, pl
                 findings.append((SIG_LAYOUT, f'{where}: items of {sname} are not ordered disjoint spans'))
                 break
             gap = T1[i + 1:j]
-            if any(not is_sep_text(t.raw_text) for t in gap) or (need_text and not any(t.raw_text for t in gap)):
+            # written without a blank in the input (`"s"2`, `^l#b`) and still neighbours: nothing to preserve there
+            i0, j0 = _pos0.get(id(x.last_token)), _pos0.get(id(y.first_token))
+            glued_before = (i0 is not None and j0 is not None and i0 < j0 and not any(t.raw_text for t in T0[i0 + 1:j0])
+                            and all(is_sep_text(t.raw_text) for t in T0[i0 + 1:j0]))
+            if any(not is_sep_text(t.raw_text) for t in gap) or \
+                    (need_text and not any(t.raw_text for t in gap) and not glued_before):
                 findings.append((SIG_LAYOUT, f'{where}: items of {sname} are separated by {"".join(t.raw_text for t in gap)!r}'))
                 break
 
@@ -1657,6 +1663,25 @@ CORPUS += [
     ('2000-01-01 *\n    Assets:Cash  1 USD {2 EUR, 2000-01-01}@ 3 EUR\n', [_RM(_P0, 'raw_cost')]),
     ('2000-01-01 balance Assets:A 1 ~ 0.1 + 0.2USD\n', [_RM(_D0, 'raw_tolerance')]),
 ]
+# items of a repeated field written right against the NEXT item (`1 "s"2`, `^l#b`): removing the item in front of a
+# glued one keeps the blanks that stood in front of it (_del_tokens, else-branch; was the finding
+# C06:list-item-removed-next-to-glued-item); commas and the first-item branch are as before
+def _RV(attr, op, **kw):
+    return {'parent': _D0, 'attr': attr, 'kind': 'rep', 'op': op, 'donors': [], **kw}
+
+
+_GL_CUSTOM = '2000-01-01 custom "x" 1 "s"2 3\n'
+_GL_CUSTOM2 = '2000-01-01 custom "x" 1  "s"2 "t"TRUE 3\n'
+_GL_TAGS = '2000-01-01 * "n" #a ^l#b ^m\n  Assets:A\n'
+for _t, _a, _n in ((_GL_CUSTOM, 'raw_values', 4), (_GL_CUSTOM2, 'raw_values', 6), (_GL_TAGS, 'raw_tags_links', 4),
+                   ('2000-01-01 open Assets:A USD,EUR ,CAD;c\n', 'raw_currencies', 3)):
+    CORPUS += [(_t, [_RV(_a, 'pop', i=_i)]) for _i in range(_n)]
+    CORPUS += [(_t, [_RV(_a, 'delitem', i=_i - _n)]) for _i in range(_n)]
+    CORPUS += [(_t, [_RV(_a, 'delslice', s=[1, 2, None])]), (_t, [_RV(_a, 'delslice', s=[1, 3, None])]),
+               (_t, [_RV(_a, 'delslice', s=[0, 2, None])]), (_t, [_RV(_a, 'delslice', s=[1, None, None])]),
+               (_t, [_RV(_a, 'delslice', s=[1, None, 2])]), (_t, [_RV(_a, 'drop_many', l=[1])]),
+               (_t, [_RV(_a, 'drop_many', l=[_n - 2, 1])]), (_t, [_RV(_a, 'pop', i=1), _RV(_a, 'pop', i=1)]),
+               (_t, [_RV(_a, 'pop', i=-2), _RV(_a, 'pop', i=1)])]
 # views over MIXED raw lists (other-kind elements / standalone comments between the addressed elements): slice deletes
 # and assignments, remove / discard / index / count / in with a value that also occurs as the other kind
 _T2 = [['raw_directives_with_comments', 1]]
